@@ -628,6 +628,8 @@ class C04(Harness):
             "EnsembleForecaster": (ENS([("a", NF()), ("b", NF("mean"))]), "fc"),
             "TransformedTargetForecaster": (PIPE([("t", LOGT()), ("f", NF())]), "fc"),
             "MultiplexForecaster": (MUX([("a", NF()), ("b", NF("mean"))], selected_forecaster="b"), "fc"),
+            # no selection made: whether fit refuses or falls back, the parameter stays as it was passed
+            "MultiplexForecaster(selected_forecaster=None)": (MUX([("a", NF()), ("b", NF("mean"))]), "fc", "may-refuse"),
             "RecursiveTabularRegressionForecaster": (red.make_reduction(LinearRegression(), window_length=2), "fc"),
             "Detrender(default)": (DET(), "tr"),
             "Detrender(forecaster)": (DET(NF()), "tr"),
@@ -670,7 +672,8 @@ class C04(Harness):
                     d[k_] = v_
             return d
 
-        for name, (est, kind) in ests.items():
+        for name, spec in ests.items():
+            est, kind = spec[0], spec[1]
             before = snap2(est)
             unfitted_components = [c for v in est.get_params(deep=False).values() if isinstance(v, list) for item in v if isinstance(item, tuple) for c in item if hasattr(c, "is_fitted")]
             rec = {}
@@ -684,7 +687,11 @@ class C04(Harness):
                 if any(getattr(c, "is_fitted", False) for c in unfitted_components):
                     rec["params_same"].append("<a component passed by the user was fitted in place>")
             except Exception as e:  # noqa
-                rec["raised"] = type(e).__name__
+                if len(spec) > 2 and isinstance(e, ValueError):
+                    after = snap2(est)
+                    rec = {"returns_self": True, "fitted": True, "refused": True, "params_same": sorted(k for k in before if after.get(k) != before[k])}
+                else:
+                    rec["raised"] = type(e).__name__
             out[name] = rec
         return out
 
